@@ -274,7 +274,9 @@ def main():
                 fp = os.path.join(base, "img.fits")
                 make_fits(fp, w, hh, scale=0.001 if mname == "tan" else 0.05)
                 out = os.path.join(base, "out")
-                hist = [False, False, True, False]          # fresh, repeated, override, repeated
+                # fresh, repeated (progress on), repeated (progress off), override, repeated (off), repeated (on)
+                hist = [False, False, False, True, False, False]
+                progress = [False, True, False, True, False, True]
                 prev = None
                 for step, override in enumerate(hist):
                     tag = f"tile_fits/{mname}/{w}x{hh}/step{step}{'-override' if override else ''}"
@@ -285,14 +287,14 @@ def main():
                             import contextlib
                             import io as _io
                             with contextlib.redirect_stdout(_io.StringIO()), contextlib.redirect_stderr(_io.StringIO()):
-                                odir, bld = toasty.tile_fits(fp, out_dir=out, tiling_method=method, override=override, parallel=1, cli_progress=bool(step % 2))
+                                odir, bld = toasty.tile_fits(fp, out_dir=out, tiling_method=method, override=override, parallel=1, cli_progress=progress[step])
                     except Exception as e:
                         h.violation(f"crash:tile_fits:{mname}", f"{tag}: tile_fits raised {type(e).__name__}: {e}", input=tag)
                         h.case((tag,))
                         break
                     h.case((tag,))
                     h.count("workflow", "tile_fits-" + mname)
-                    h.count("history", ["fresh", "repeated", "override", "repeated-after-override"][step])
+                    h.count("history", ["fresh", "repeated", "repeated", "override", "repeated-after-override", "repeated-after-override"][step] + ("/progress" if progress[step] else ""))
                     res = check_dir(h, tag, odir, "LsYsYX", lines, py, full=False)
                     if res is None:
                         continue
@@ -301,9 +303,9 @@ def main():
                     returned = desc_of(bld.imgset, bld.place if place is not None else None)
                     if on_disk != returned:
                         diff = {kk: (returned.get(kk), on_disk.get(kk)) for kk in on_disk if on_disk.get(kk) != returned.get(kk)}
-                        hk = ["fresh", "reuse", "override", "reuse"][step]
+                        hk = ["fresh", "reuse", "reuse", "override", "reuse", "reuse"][step]
                         h.violation(f"returned:{hk}", f"{tag}: the description returned by tile_fits differs from index_rel.wtml: (returned, on disk) = {diff}",
-                                    input={"workflow": "tile_fits", "method": mname, "history": hist[: step + 1], "cli_progress": bool(step % 2)}, observed=diff)
+                                    input={"workflow": "tile_fits", "method": mname, "history": hist[: step + 1], "cli_progress": progress[step]}, observed=diff)
                     if prev is not None and not override and prev != on_disk:
                         h.violation("reuse:changed", f"{tag}: reusing the directory changed index_rel.wtml", input=tag)
                     prev = on_disk
